@@ -14,7 +14,16 @@ SPEC = {
                   "C07_sort_needed shows each sort is necessary. C07_hash_check_stable (full): output-hash checking leaves the rule hash of an unchanged target alone - true "
                   "since fix 656076b (UnprefixedHashes works on a copy; regenerated fact unprefixedAliases=false); the repaired defect "
                   "is kept as C07_witness_hash_check_aliasing / C07_partial_hash_check_aliasing about the old fact value. "
-                  "Source and config hashes, parsing and scheduling are not modelled: they are covered only by the end-to-end oracle "
+                  "Package level: C07_partial_parse_order / C07_partial_invocations_agree (partial: hypothesis ConfigIsolated - evaluating a package "
+                  "leaves the cached frozen CONFIG of subincluded files untouched - is C17's non-interference property, stated here as an explicit "
+                  "hypothesis, and Model/ParseOrder.lean abstracts the interpreter to CONFIG merging): what is reported for a package's targets is "
+                  "the same for every schedule of package evaluations, i.e. independent of the other requested targets, their order, -n and the "
+                  "scheduler; C07_parse_order_copying discharges it for the copying Merge, C07_witness_borrowed_overlay shows it fails when Merge "
+                  "adopts the subincluded overlay by reference. On the real binary this is decided end to end only (e2ecfg: generated repositories "
+                  "with 2-3 CONFIG-setting build_defs files subincluded in different subsets, a slow generated build_defs file to skew the parse "
+                  "order; per target, everything plz hash --detailed reports is compared across invocations differing only in the other targets "
+                  "requested, their order and -n, each from a clean plz-out; oracle class hash-depends-on-what-else-was-parsed). "
+                  "Source and config hashes and scheduling are otherwise not modelled: they are covered only by the end-to-end oracle "
                   "(plz hash --detailed repeated with -n 1 / -n 16, permuted target order and //...).",
     "technique": "Lean 4 theorems (sorted-permutation uniqueness) over the rule-hash model + regenerated sort facts + in-process "
                  "shuffled/concurrent construction + end-to-end repetition of plz hash",
@@ -46,4 +55,9 @@ Dry-runs on a scratch copy (VERIF_REPO=/var/tmp/mC07 ./check C07 quick):
  M4 allBuildInputs: drop `sort.Strings(keys)` -> exit 1, in-process and end-to-end failing inputs (named sources).
  M5 harmless: rename provideKeys -> langs -> exit 0.
  M6 (after fix 656076b) re-introduce the aliasing: `hashes := target.Hashes[:]` in UnprefixedHashes -> see below.
+ M7 (round-3 seed /tmp/seedout3/C07/patch.diff) objects.go: pyConfig.Merge adopts the subincluded frozen overlay by reference
+    ("borrowed") and later merges write into it -> exit 1: VIOLATION replay=.build/replays-alt/C07/
+    violation-hash-depends-on-what-else-was-parsed.json, input `e2ecfg 1 2 1 1` (corpus parse-order-config.ops and generated
+    ops): //s1:t hashes differently in `plz hash --detailed -n 1 //s0:t //s1:t` and `... -n 1 //m0:x0 //m0:x1 //s1:t //s0:t`.
+    /repo: exit 0 (16/16, 1938 cases, 0 disagreements).
 """
